@@ -842,7 +842,7 @@ func (in *Interp) lookup(x Value, key Value, commaOk bool, rt types.Type) Value 
 }
 
 func (in *Interp) mapUpdate(m *MapV, key, val Value) {
-	if in.monitorOn && in.underTest > 0 && (m.Org == OrgDoc || m.Org == OrgAST || m.Org == OrgGlobal) {
+	if in.monitorOn && in.underTest > 0 && in.parseDepth == 0 && (m.Org == OrgDoc || m.Org == OrgAST || m.Org == OrgGlobal) {
 		in.Events = append(in.Events, Event{Kind: "sharedwrite", Msg: "map update on " + m.Org.String() + " map", Where: in.where(), Stack: in.stackNames()})
 	}
 	idx := in.mapFind(m, key)
